@@ -4,20 +4,23 @@ From RecordUpdate Require Import RecordSet.
 From V Require Import Common.Str Regex.Reader Gen.UnicodeProps Regex.Validator Regex.Grammar Regex.FragParser.
 Import ListNotations RecordSetNotations.
 
-Definition at_ (s : vst) (l : list N) : Prop := skipn (pos s) (units (rd s)) = l.
+(* the validator is at the input suffix l, in mode u (validate_pattern sets strict = u_flag = u) *)
+Definition at_ (u : bool) (s : vst) (l : list N) : Prop :=
+  skipn (pos s) (units (rd s)) = l /\ strict s = u /\ uflag s = u.
 Definition cfgeq (s t : vst) : Prop :=
   units (rd t) = units (rd s) /\ strict t = strict s /\ uflag t = uflag s /\ nflag t = nflag s /\
   ncap t = ncap s /\ gnames t = gnames s /\ brnames t = brnames s.
-Definition Post (s : vst) (t : vst) (l' : list N) : Prop := at_ t l' /\ in_fragment l' = true /\ cfgeq s t.
-Definition SimR {A} (P : vst -> list N -> Prop) (r : R A) (x : SR A) : Prop :=
+Definition Post {A} (u : bool) (s : vst) (_ : A) (t : vst) (l' : list N) : Prop :=
+  at_ u t l' /\ in_fragment l' = true /\ cfgeq s t.
+Definition SimR {A} (P : A -> vst -> list N -> Prop) (r : R A) (x : SR A) : Prop :=
   match r, x with
-  | Ok a t, SOk a' l' => a = a' /\ P t l'
+  | Ok a t, SOk a' l' => a = a' /\ P a t l'
   | SyntaxErr _ _, SErr => True
   | OutOfFuel, SFuel => True
   | _, _ => False
   end.
-Definition SimP (P : vst -> list N -> Prop) (r : R bool) (p : bool * list N) : Prop :=
-  match r with Ok a t => a = fst p /\ P t (snd p) | _ => False end.
+Definition SimP (P : bool -> vst -> list N -> Prop) (r : R bool) (p : bool * list N) : Prop :=
+  match r with Ok a t => a = fst p /\ P a t (snd p) | _ => False end.
 
 Lemma nth_error_skipn_add {A} (us : list A) i k : nth_error (skipn i us) k = nth_error us (i + k).
 Proof. revert us; induction i as [|i IH]; intros us; [reflexivity|]. destruct us as [|x us]; [destruct k; reflexivity|]. apply IH. Qed.
@@ -33,6 +36,37 @@ Proof. intros <-. symmetry. apply skipn_length. Qed.
 
 Lemma sp_quant_false_eq l r : sp_quant l = (false, r) -> r = l.
 Proof. destruct l as [|c l']; cbn [sp_quant]; [intros [= <-]; reflexivity|]. destruct (is_quant_char c); [discriminate|intros [= <-]; reflexivity]. Qed.
+Lemma quantifiable_true l : quantifiable true l = false.
+Proof. destruct l as [|c0 [|c1 [|c2 l]]]; cbn [quantifiable negb]; try reflexivity. apply andb_false_r. Qed.
+(* the input starts a look-around (or anything else beginning with `(?<`) *)
+Definition lookaround_prefix (l : list N) : bool :=
+  match l with
+  | c0 :: c1 :: c2 :: _ => (c0 =? g_lparen) && (c1 =? g_question) && (is_eq_or_bang c2 || (c2 =? g_less))
+  | _ => false
+  end.
+Lemma sp_group_body_not_false sdisj l r : sp_group_body sdisj l <> SOk false r.
+Proof. unfold sp_group_body. destruct (sdisj l) as [[] [|c r0]| |]; try discriminate. destruct (c =? g_rparen); discriminate. Qed.
+Lemma sp_assertion_false_prefix sdisj l r : sp_assertion sdisj l = SOk false r -> ctx_ok l = true -> lookaround_prefix l = false.
+Proof.
+  destruct l as [|c0 [|c1 [|c2 l']]]; try reflexivity. cbn [sp_assertion lookaround_prefix ctx_ok local_ok].
+  destruct (N.eqb_spec c0 g_caret) as [->|_]; [discriminate|]. destruct (N.eqb_spec c0 g_dollar) as [->|_]; [discriminate|].
+  destruct (N.eqb_spec c0 g_lparen) as [->|_]; [|reflexivity]. destruct (N.eqb_spec c1 g_question) as [->|_]; [|reflexivity].
+  cbn [andb]. destruct (N.eqb_spec c2 g_less) as [->|_].
+  - destruct l' as [|y r3]; [intros _ H; discriminate H|]. destruct (is_eq_or_bang y); [|intros _ H; discriminate H].
+    intros H _. exfalso. exact (sp_group_body_not_false _ _ _ H).
+  - rewrite orb_false_r. destruct (is_eq_or_bang c2); [|reflexivity]. intros H _. exfalso. exact (sp_group_body_not_false _ _ _ H).
+Qed.
+Lemma sp_assertion_false_eq sdisj l r : sp_assertion sdisj l = SOk false r -> r = l.
+Proof.
+  destruct l as [|c0 l0]; cbn [sp_assertion]; [intros [= <-]; reflexivity|].
+  destruct (c0 =? g_caret); [discriminate|]. destruct (c0 =? g_dollar); [discriminate|].
+  destruct (c0 =? g_lparen); [|intros [= <-]; reflexivity].
+  destruct l0 as [|c1 l1]; [intros [= <-]; reflexivity|]. destruct (c1 =? g_question); [|intros [= <-]; reflexivity].
+  destruct l1 as [|c2 l2]; [intros [= <-]; reflexivity|]. destruct (c2 =? g_less).
+  - destruct l2 as [|c3 l3]; [intros [= <-]; reflexivity|]. destruct (is_eq_or_bang c3); [|intros [= <-]; reflexivity].
+    intros H. exfalso. exact (sp_group_body_not_false _ _ _ H).
+  - destruct (is_eq_or_bang c2); [|intros [= <-]; reflexivity]. intros H. exfalso. exact (sp_group_body_not_false _ _ _ H).
+Qed.
 Lemma syntax_character_is_syntax c : syntax_character c = is_syntax c.
 Proof. reflexivity. Qed.
 
@@ -48,8 +82,8 @@ Ltac prim :=
   unfold r_advance, r_rewind, r_remaining in *; unfold set in *; proj.
 Ltac unfold_hyps :=
   repeat match goal with
-         | H : Post _ _ _ |- _ => unfold Post in H
-         | H : at_ _ _ |- _ => unfold at_, pos in H
+         | H : Post _ _ _ _ _ |- _ => unfold Post in H
+         | H : at_ _ _ _ |- _ => unfold at_, pos in H
          | H : cfgeq _ _ |- _ => unfold cfgeq in H
          | H : _ /\ _ |- _ => destruct H
          end.
@@ -66,9 +100,11 @@ Ltac feed :=
              | _ : skipn (S j) us = r |- _ => fail
              | _ => pose proof (skipn_S_tl us j c r H)
              end
-         | H : in_fragment _ = true |- _ => unfold in_fragment in H
+         | H : in_fragment _ = true |- _ => unfold in_fragment, chars_ok in H; apply andb_true_iff in H; destruct H as [? ?]
          | H : forallb frag_char (_ :: _) = true |- _ =>
              cbn [forallb] in H; apply andb_true_iff in H; destruct H as [? H]
+         | H : ctx_ok (_ :: _) = true |- _ =>
+             cbn [ctx_ok] in H; apply andb_true_iff in H; destruct H as [? H]
          end.
 Ltac rw1 :=
   first [ rewrite r_cp_skipn
@@ -80,6 +116,9 @@ Ltac rw_skipn := repeat (rw1; proj).
 (* a closed boolean hypothesis that computes to a contradiction *)
 Ltac absurd_hyp :=
   match goal with
+  | H : local_ok _ _ = true |- _ =>
+      unfold local_ok, is_eq_or_bang in H; unfold_chars; cbn [N.eqb Pos.eqb andb orb] in H;
+      repeat match goal with E : (_ =? _)%N = false |- _ => rewrite E in H end; cbn [orb] in H; discriminate H
   | H : _ = true |- _ => vm_compute in H; discriminate H
   | H : _ = false |- _ => vm_compute in H; discriminate H
   end.
@@ -89,14 +128,18 @@ Ltac cleanup :=
          | H : negb _ = false |- _ => apply negb_false_iff in H
          | H : negb _ = true |- _ => apply negb_true_iff in H
          | H : ?x = ?x |- _ => clear H
+         | H : true = true -> _ |- _ => specialize (H eq_refl)
+         | H : false = true -> _ |- _ => clear H
          | H : @eq (list N) ?x ?y |- _ => is_var x; is_var y; subst x
          | H : @eq bool ?x true |- _ => is_var x; subst x
          | H : @eq bool ?x false |- _ => is_var x; subst x
          | H : @eq bool true ?x |- _ => is_var x; subst x
          | H : @eq bool false ?x |- _ => is_var x; subst x
+         | H : @eq bool ?x ?y |- _ => is_var x; subst x
          | H : (?c =? _)%N = true |- _ => is_var c; apply N.eqb_eq in H; subst c
          | H : Some _ = Some _ |- _ => injection H as H
          | H : sp_quant ?l = (false, ?r) |- _ => apply sp_quant_false_eq in H; subst r
+         | H : sp_assertion _ ?l = SOk false ?r |- _ => is_var r; pose proof (sp_assertion_false_eq _ _ _ H); subst r
          | H : @eq unit _ _ |- _ => clear H
          | H : @eq N ?x ?y |- _ => first [is_var x; subst x | is_var y; subst y]
          | H : @eq (list str) ?x _ |- _ => is_var x; subst x
@@ -105,7 +148,7 @@ Ltac norm := unfold_hyps; destruct_states; cleanup.
 Ltac sp_simpl :=
   repeat (change (syntax_character ?x) with (is_syntax x));
   cbn [fst snd andb orb negb nth_error length].
-Ltac simp := rw_skipn; sp_simpl; unfold_chars.
+Ltac simp := rw_skipn; sp_simpl; unfold_chars; rewrite ?quantifiable_true.
 Ltac split_test c :=
   lazymatch c with
   | (?a && _)%bool => split_test a
@@ -135,14 +178,16 @@ Ltac split_mem :=
 Ltac finish :=
   simp; repeat (case_scrut; proj; cleanup; try solve [exfalso; absurd_hyp]; simp);
   try (split_mem; try solve [exfalso; absurd_hyp]);
-  unfold SimP; cbn [SimR fst snd]; unfold Post, at_, cfgeq, pos; proj;
+  unfold SimP; cbn [SimR fst snd]; unfold Post, at_, cfgeq, pos; proj; rewrite ?quantifiable_true;
   repeat match goal with |- _ /\ _ => split end;
   try reflexivity; try assumption; try congruence;
-  try solve [unfold in_fragment in *; cbn [forallb]; repeat (apply andb_true_iff; split); assumption]; auto.
+  try solve [unfold in_fragment, chars_ok in *; cbn [forallb ctx_ok]; repeat (apply andb_true_iff; split); assumption]; auto.
 
-#[global] Hint Extern 1 (at_ _ _) => solve [unfold at_, pos; proj; eassumption] : sim.
+#[global] Hint Extern 1 (at_ _ _ _) => solve [unfold at_, pos; proj; split; [eassumption | split; first [reflexivity | eassumption | congruence]]] : sim.
 #[global] Hint Extern 1 (in_fragment _ = true) =>
-  solve [unfold in_fragment in *; cbn [forallb]; repeat (apply andb_true_iff; split); first [eassumption | reflexivity]] : sim.
+  solve [unfold in_fragment, chars_ok in *; cbn [forallb ctx_ok]; repeat (apply andb_true_iff; split); first [eassumption | reflexivity]] : sim.
+#[global] Hint Extern 1 (lookaround_prefix _ = false) =>
+  solve [eapply sp_assertion_false_prefix; eassumption] : sim.
 
 Ltac head_scrut t :=
   lazymatch t with
@@ -163,7 +208,7 @@ Ltac use_lemma c :=
   | SimR _ _ (SOk _ _) => let E1 := fresh "E" in
                    destruct c eqn:E1; cbn [SimR] in L; try contradiction; clear E1; norm
   | SimR _ _ ?x => let E1 := fresh "E" in let E2 := fresh "E" in
-                   destruct c eqn:E1; destruct x eqn:E2; cbn [SimR] in L; try contradiction; clear E1 E2; norm
+                   destruct c eqn:E1; destruct x eqn:E2; cbn [SimR] in L; try contradiction; clear E1; norm
   | SimP _ _ ?x => let E1 := fresh "E" in let E2 := fresh "E" in
                    destruct c eqn:E1; destruct x eqn:E2; unfold SimP in L; cbn [fst snd] in L; try contradiction; clear E1; norm
   end.
@@ -183,8 +228,8 @@ Ltac step :=
               | _ => split_test c
               end ]
   end; proj; cleanup; try solve [exfalso; absurd_hyp].
-Lemma SimR_weaken {A} (P' P : vst -> list N -> Prop) (r : R A) x :
-  SimR P' r x -> (forall t l, P' t l -> P t l) -> SimR P r x.
+Lemma SimR_weaken {A} (P' P : A -> vst -> list N -> Prop) (r : R A) x :
+  SimR P' r x -> (forall a t l, P' a t l -> P a t l) -> SimR P r x.
 Proof. destruct r, x; cbn [SimR]; try tauto. intros [-> HP] HW. split; [reflexivity|apply HW; exact HP]. Qed.
 Ltac tail :=
   lazymatch goal with
@@ -197,100 +242,88 @@ Ltac tail :=
 Ltac go := repeat step; first [tail | finish].
 Ltac start F := intros; norm; unfold F, bind; prim.
 
-(* ---- functions outside the fragment always fail (Ok false, nothing moved) ---- *)
-Lemma consume_quantifier_sim nc s l : at_ s l -> in_fragment l = true ->
-  SimP (Post s) (consume_quantifier nc s) (sp_quant l).
+Lemma consume_quantifier_sim u nc s l : at_ u s l -> in_fragment l = true ->
+  SimP (Post u s) (consume_quantifier nc s) (sp_quant l).
 Proof. start consume_quantifier. unfold eat_braced_quantifier, bind. prim. unfold sp_quant, is_quant_char. go. Qed.
 #[local] Hint Resolve consume_quantifier_sim : sim.
 
 Section KnotSim.
 Variable disj : vst -> R unit.
 Variable sdisj : list N -> SR unit.
-Hypothesis disj_sim : forall s l, at_ s l -> in_fragment l = true -> SimR (Post s) (disj s) (sdisj l).
-#[local] Hint Resolve disj_sim : sim.
+(* the recursive call (one nesting level deeper) simulates the recogniser's, in mode u *)
+Definition disj_sim (u : bool) : Prop :=
+  forall s l, at_ u s l -> in_fragment l = true -> SimR (Post u s) (disj s) (sdisj l).
+#[local] Hint Extern 1 (disj_sim _) => eassumption : sim.
+#[local] Hint Extern 2 (SimR _ (disj _) _) =>
+  match goal with H : disj_sim _ |- _ => eapply H end : sim.
 
-Lemma assertion_sim s l : at_ s l -> in_fragment l = true ->
-  SimR (Post s) (assertion disj s) (SOk false l).
-Proof. start assertion. go. Qed.
+Lemma assertion_sim u s l : disj_sim u -> at_ u s l -> in_fragment l = true ->
+  SimR (fun a t l' => Post u s a t l' /\ (a = true -> laq t = quantifiable u l)) (assertion disj s) (sp_assertion sdisj l).
+Proof. start assertion. unfold sp_assertion, sp_group_body, quantifiable, is_eq_or_bang. go. Qed.
 #[local] Hint Resolve assertion_sim : sim.
 
-Lemma atom_sim s l : at_ s l -> in_fragment l = true -> SimR (Post s) (atom disj s) (sp_atom sdisj l).
+Lemma atom_sim u s l : disj_sim u -> at_ u s l -> in_fragment l = true -> lookaround_prefix l = false ->
+  SimR (Post u s) (atom disj s) (sp_atom sdisj l).
 Proof.
   start atom. unfold consume_reverse_solidus_atom_escape, consume_character_class, uncapturing_group, capturing_group,
     consume_group_specifier, eat_group_name, bind. prim. unfold sp_atom, sp_group_body. go.
 Qed.
 #[local] Hint Resolve atom_sim : sim.
 
-Lemma extended_atom_sim s l : at_ s l -> in_fragment l = true ->
-  SimR (Post s) (extended_atom disj s) (sp_atom sdisj l).
+Lemma extended_atom_sim u s l : disj_sim u -> at_ u s l -> in_fragment l = true -> lookaround_prefix l = false ->
+  SimR (Post u s) (extended_atom disj s) (sp_atom sdisj l).
 Proof.
   start extended_atom. unfold consume_reverse_solidus_atom_escape, consume_character_class, uncapturing_group, capturing_group,
     consume_group_specifier, eat_group_name, eat_braced_quantifier, bind. prim. unfold sp_atom, sp_group_body. go.
 Qed.
 #[local] Hint Resolve extended_atom_sim : sim.
 
-Lemma term_sim s l : at_ s l -> in_fragment l = true -> SimR (Post s) (term disj s) (sp_term sdisj l).
+Lemma term_sim u s l : disj_sim u -> at_ u s l -> in_fragment l = true -> SimR (Post u s) (term disj s) (sp_term u sdisj l).
 Proof. start term. unfold sp_term. go. Qed.
 #[local] Hint Resolve term_sim : sim.
 
-Lemma alternative_sim g : forall s l, at_ s l -> in_fragment l = true ->
-  SimR (Post s) (alternative disj g s) (sp_alternative sdisj g l).
+Lemma alternative_sim u (Hd : disj_sim u) g : forall s l, at_ u s l -> in_fragment l = true ->
+  SimR (Post u s) (alternative disj g s) (sp_alternative u sdisj g l).
 Proof. induction g as [|g IH]; intros s l Ha Hf; [exact I|]. norm. cbn [alternative sp_alternative]. unfold bind. prim. go. Qed.
 #[local] Hint Resolve alternative_sim : sim.
 
-Lemma bars_sim g : forall s l, at_ s l -> in_fragment l = true ->
-  SimR (Post s) (bars disj g s) (sp_bars sdisj g l).
+Lemma bars_sim u (Hd : disj_sim u) g : forall s l, at_ u s l -> in_fragment l = true ->
+  SimR (Post u s) (bars disj g s) (sp_bars u sdisj g l).
 Proof. induction g as [|g IH]; intros s l Ha Hf; [exact I|]. norm. cbn [bars sp_bars]. unfold bind. prim. go. Qed.
 #[local] Hint Resolve bars_sim : sim.
 
-Lemma disjunction_body_sim s l : at_ s l -> in_fragment l = true ->
-  SimR (Post s) (disjunction_body disj s) (sp_disjunction_body sdisj l).
+Lemma disjunction_body_sim u s l : disj_sim u -> at_ u s l -> in_fragment l = true ->
+  SimR (Post u s) (disjunction_body disj s) (sp_disjunction_body u sdisj l).
 Proof. start disjunction_body. unfold sp_disjunction_body. go. Qed.
 End KnotSim.
 
-Lemma disjunction_sim f : forall s l, at_ s l -> in_fragment l = true ->
-  SimR (Post s) (disjunction f s) (sp_disjunction f l).
+Lemma disjunction_sim u f : forall s l, at_ u s l -> in_fragment l = true ->
+  SimR (Post u s) (disjunction f s) (sp_disjunction u f l).
 Proof.
   induction f as [|f IH]; intros s l Ha Hf; [exact I|]. cbn [disjunction sp_disjunction].
-  apply disjunction_body_sim; assumption.
+  apply disjunction_body_sim; [exact IH|assumption|assumption].
 Qed.
 #[local] Hint Resolve disjunction_sim : sim.
 
-Lemma consume_pattern_sim s l : at_ s l -> in_fragment l = true ->
-  SimR (fun t l' => l' = [] /\ gnames t = []) (consume_pattern s) (sp_pattern l).
+Lemma consume_pattern_sim u s l : at_ u s l -> in_fragment l = true ->
+  SimR (fun _ t l' => l' = [] /\ gnames t = []) (consume_pattern s) (sp_pattern u l).
 Proof.
   intros Ha Hf. norm. unfold consume_pattern, bind, pattern_fuel, count_capturing_parens. prim. unfold sp_pattern. go.
 Qed.
-
-(* the fragment alphabet is closed under UTF-16 encoding: surrogate units are ordinary pattern characters *)
-Lemma frag_char_high v : (128 <= v)%N -> frag_char v = true.
-Proof.
-  intros Hv. unfold frag_char, syntax_character. unfold_chars. cbn [existsb].
-  repeat match goal with |- context [N.eqb v ?k] => destruct (N.eqb_spec v k) as [?Hk|?Hk]; [exfalso; lia|] end.
-  reflexivity.
-Qed.
-Lemma in_fragment_utf16 s : in_fragment s = true -> in_fragment (utf16 s) = true.
-Proof.
-  unfold in_fragment, utf16. induction s as [|c s IH]; [reflexivity|]. cbn [forallb flat_map]. intros H.
-  apply andb_true_iff in H. destruct H as [Hc Hs]. rewrite forallb_app. rewrite (IH Hs), andb_true_r.
-  unfold utf16_of. destruct (N.ltb_spec c 65536) as [Hlt|Hge]; cbn [forallb]; [rewrite Hc; reflexivity|].
-  rewrite !frag_char_high; [reflexivity| |]; lia.
-Qed.
-Lemma in_fragment_visible s u : in_fragment s = true -> in_fragment (visible_units s u) = true.
-Proof. destruct u; cbn [visible_units]; [auto|apply in_fragment_utf16]. Qed.
 
 Definition outcome_agrees {A B} (r : R A) (x : SR B) : Prop :=
   match r, x with
   | Ok _ _, SOk _ _ => True | SyntaxErr _ _, SErr => True | OutOfFuel, SFuel => True | _, _ => False end.
 
-Theorem validate_pattern_sim st src u : in_fragment src = true ->
-  outcome_agrees (validate_pattern st src u) (sp_pattern (visible_units src u)).
+(* the fragment condition is on the units the validator reads (code points with u, UTF-16 code units without) *)
+Theorem validate_pattern_sim st src u : in_fragment (visible_units src u) = true ->
+  outcome_agrees (validate_pattern st src u) (sp_pattern u (visible_units src u)).
 Proof.
-  intros Hf. apply (in_fragment_visible src u) in Hf. unfold validate_pattern, bind.
+  intros Hf. unfold validate_pattern, bind.
   set (s := st <| strict := u |> <| uflag := u |> <| nflag := u |> <| rd := mkreader (visible_units src u) 0 |>).
-  assert (Ha : at_ s (visible_units src u)) by (destruct st; reflexivity).
-  pose proof (consume_pattern_sim s _ Ha Hf) as L.
-  destruct (consume_pattern s) as [a t|m t|p|]; destruct (sp_pattern (visible_units src u)) as [a' l'| |]; cbn [SimR] in L;
+  assert (Ha : at_ u s (visible_units src u)) by (destruct st; repeat split).
+  pose proof (consume_pattern_sim u s _ Ha Hf) as L.
+  destruct (consume_pattern s) as [a t|m t|p|]; destruct (sp_pattern u (visible_units src u)) as [a' l'| |]; cbn [SimR] in L;
     try contradiction; try exact I.
   destruct L as [_ [_ Hg]]. rewrite Hg. rewrite andb_false_r. exact I.
 Qed.
